@@ -313,10 +313,15 @@ class _StubSeg:
         return pd.Series(SymArray([self.value] * len(data)), index=data.index)
 
 
-def route_run(zone, month, which, sym):
+def route_run(zone, month, which, sym, unable=None):
+    """unable: None, or 0/1 = the own-month model of the first/second hour cannot predict (returns NaN, as a segment model
+    does for an hour of the week it never saw): that hour has no prediction - no other month's model may fill in"""
     idx = boundary_index(zone, month, which)
     fit_names = list(expected_weights("three_month_weighted", 1))
     vals = {n: (real(f"seg_{i}") if sym else float(100 + i)) for i, n in enumerate(fit_names)}
+    if unable is not None:
+        t_un = pd.date_range(boundary_index(zone, month, "last")[0], periods=2, freq="h")[unable]
+        vals[[n for n in fit_names if expected_weights("three_month_weighted", t_un.month)[n] == 1.0][0]] = float("nan")
     models = [_StubSeg(n, vals[n]) for n in fit_names]
     lk, ob, ub = lookup_frames(1, DEFAULT_BINS, DEFAULT_BINS, fit_names)
     model = cm.CalTRACKHourlyModel(models, lk, ob, ub, "three_month_weighted")  # the real class, real feature processor
@@ -329,19 +334,23 @@ def route_run(zone, month, which, sym):
 
 def replay_route(inp):
     global SymArray
-    res, vals, own, names = _route_concrete(inp["zone"], inp["month"], inp["which"])
+    res, vals, own, names = _route_concrete(inp["zone"], inp["month"], inp["which"], inp.get("unable"))
     got = [float(x) for x in res["predicted_usage"]]
     want = [vals[o] for o in own]
-    return got != want, f"predictions {got} are not the own-month models' {own}: {want}"
+    same = all((a != a and b != b) or a == b for a, b in zip(got, want)) and len(got) == len(want)
+    return not same, f"predictions {got} are not the own-month models' {own}: {want}"
 
 
-def _route_concrete(zone, month, which):
+def _route_concrete(zone, month, which, unable=None):
     class _C(_StubSeg):
         def predict(self, data):
             return pd.Series([self.value] * len(data), index=data.index)
     idx = boundary_index(zone, month, which)
     names = list(expected_weights("three_month_weighted", 1))
     vals = {n: float(100 + i) for i, n in enumerate(names)}
+    if unable is not None:
+        t_un = pd.date_range(boundary_index(zone, month, "last")[0], periods=2, freq="h")[unable]
+        vals[[n for n in names if expected_weights("three_month_weighted", t_un.month)[n] == 1.0][0]] = float("nan")
     lk, ob, ub = lookup_frames(1, DEFAULT_BINS, DEFAULT_BINS, names)
     model = cm.CalTRACKHourlyModel([_C(n, vals[n]) for n in names], lk, ob, ub, "three_month_weighted")
     idx = pd.date_range(boundary_index(zone, month, "last")[0], periods=2, freq="h")
@@ -356,19 +365,22 @@ def run_route(case, zone):
     def run():
         month = F.choose("month", list(range(1, 13)))
         which = "last"
-        return month, which, route_run(zone, month, which, True)
+        unable = F.choose("unable", [None, 0, 1])
+        return month, which, unable, route_run(zone, month, which, True, unable)
 
     paths = case.explore(run)
     for p in paths:
         if p.outcome != "ret":
             case.rep["harness_errors"].append(f"route raised {p.value!r}")
             continue
-        month, which, (res, vals, own, names) = p.value
+        month, which, unable, (res, vals, own, names) = p.value
         got = cells(res["predicted_usage"])
-        rp = ("route", (lambda a, b: lambda mdl: dict(zone=zone, month=a, which=b))(month, which))
-        ok = len(got) == 2 and all(isinstance(g, SReal) for g in got)
-        case.prove(p, z3.And(*[to_real(lift(g)) == lift(vals[o]) for g, o in zip(got, own)]) if ok else False,
-                   "each hour is predicted only by its own month's model (both sides of every month boundary)", replay=rp)
+        rp = ("route", (lambda a, b, u: lambda mdl: dict(zone=zone, month=a, which=b, unable=u))(month, which, unable))
+        nan_own = [isinstance(vals[o], float) and vals[o] != vals[o] for o in own]
+        ok = len(got) == 2 and all((is_nan(g) if nn else isinstance(g, SReal)) for g, nn in zip(got, nan_own))
+        case.prove(p, z3.And(*[to_real(lift(g)) == lift(vals[o]) for g, o, nn in zip(got, own, nan_own) if not nn]) if ok else False,
+                   "each hour is predicted only by its own month's model (both sides of every month boundary); no prediction when that model has none", replay=rp)
+        case.regime("own-month model without a prediction for the hour", unable is not None)
     case.sample(dict(zone=zone, routing="12 months x first/last hour, stub segment models with symbolic outputs"))
 
 
